@@ -22,12 +22,17 @@ Binders == {Diff(f, s) : f \in Fns, s \in {x, y}} \cup {Diff(Diff(TFn("g", <<x, 
             Diff(TFn("g", <<B("pow", x, TInt(2)), B("add", x, y)>>), x), Diff(U("abs", B("mul", x, y)), x), Diff(B("mul", z, TFn("f", <<B("add", x, t)>>)), x),
             T("subs", <<Diff(TFn("f", <<B("pow", x, TInt(2))>>), x), x, B("add", y, z)>>, "", 1, 0),
             T("subs", <<Diff(TFn("f", <<B("pow", x, TInt(2))>>), x), y, z>>, "", 1, 0)}
+\* a Subs object whose bound variable also occurs free elsewhere in the expression, before and after it
+S1 == T("subs", <<Diff(TFn("f", <<x>>), x), x, B("pow", y, TInt(2))>>, "", 1, 0)
+S2 == T("subs", <<Diff(TFn("f", <<x>>), x), x, B("add", t, y)>>, "", 1, 0)
+BoundFree == {TFn("h", <<S1, x>>), TFn("h", <<x, S1>>), B("pow", S1, x), B("pow", x, S1), TFn("h", <<S1, t, x>>), B("add", S1, x), B("mul", S1, x), TFn("h", <<S2, TFn("f", <<x>>)>>),
+              TFn("h", <<S1, S2, x>>), B("add", B("mul", S1, y), B("pow", x, TInt(2))), S1, S2, U("sin", B("mul", S1, x))}
 Sets == {TOp("imageset", <<x, B("pow", x, TInt(2)), TOp("Integers", <<>>)>>), TOp("imageset", <<x, B("mul", x, y), TOp("Integers", <<>>)>>),
          TOp("conditionset", <<x, B("Lt", x, y)>>), TOp("conditionset", <<x, TOp("and", <<B("Lt", x, y), B("Lt", z, x)>>)>>),
          TOp("finiteset", <<x, y, TInt(1)>>), T("interval", <<TInt(0), TInt(1)>>, "", 0, 0), TOp("union", <<TOp("finiteset", <<x>>), T("interval", <<TInt(0), TInt(1)>>, "", 0, 0)>>),
          B("contains", x, T("interval", <<TInt(0), TInt(1)>>, "", 0, 0)), B("Lt", x, y), TOp("and", <<B("Lt", x, y), B("Le", z, TInt(1))>>),
          TOp("piecewise", <<x, B("Lt", y, TInt(0)), z, T("True", <<>>, "", 0, 0)>>)}
-Struct == {[op |-> "struct", e |-> e, probe |-> ProbeSyms, x |-> x, deg |-> -1] : e \in E1 \cup Fns \cup Binders \cup Sets}
+Struct == {[op |-> "struct", e |-> e, probe |-> ProbeSyms, x |-> x, deg |-> -1] : e \in E1 \cup Fns \cup Binders \cup BoundFree \cup Sets}
 \* polynomials in x (expanded) with coefficients in y, z and numbers
 PolyBase == {B("add", x, TInt(1)), B("add", x, y), B("sub", B("mul", TInt(2), x), y), B("add", B("pow", x, TInt(2)), B("mul", y, x)), B("add", B("mul", x, y), z),
              B("sub", TRat(1, 2), x), B("add", B("mul", y, B("pow", x, TInt(2))), TInt(3)), x, B("mul", TInt(3), y), B("add", y, z)}
